@@ -114,6 +114,26 @@ def compare(st, case, what, build, sig):
         if snap(sym) != before:
             v("subs-mutates", "subs changed the symbolic original", c)
             before = snap(sym)
+        # subs on a model without any symbol left must also return an independent, equal model
+        if c == CS[0] and not isinstance(num, Raised):
+            nb = snap(num)
+            nsub, _w = call(num.subs, {s: c})
+            if isinstance(nsub, Raised):
+                v("subs-raises-" + nsub.kind, "subs on the numeric build raised %r" % nsub.exc, c)
+            else:
+                d2 = same_model(nsub, num)
+                if d2:
+                    v("numeric-subs-differs", "subs on a model without symbols changed it: %s" % d2, c)
+                elif nsub is num:
+                    v("subs-returns-self", "subs on a model without symbols returned the model itself (later changes to the result change the original)", c)
+                else:
+                    def touch(H):
+                        H[(next(iter(H.variables), "a"), "extra-label")] += 1
+                        for kind in list(getattr(H, "constraints", {})):
+                            getattr(H, "add_constraint_%s_zero" % kind)({("extra-label",): 1}, lam=0)
+                    call(touch, nsub)
+                    if snap(num) != nb:
+                        v("subs-aliases-original", "changing the model returned by subs on a numeric model changed the original", c)
         # "subs leaves the original unchanged", also under any later use of the result: extend the substituted model with
         # one more recorded constraint of every kind it has, and a new term
         if not diff and hasattr(sub, "constraints") and c == CS[0]:
